@@ -1,8 +1,195 @@
-(* C02 - sliver <-> graph / dictionary / JSON conversion preserves every settable field. *)
+(* C02 - sliver <-> graph / dictionary / JSON conversion preserves every settable field.
+   Statements only; each is closed by `exact` of a lemma of Proofs/Sliver2*.v.
+
+   The model (Model/Sliver2Map.v, Sliver2Deep.v, Sliver2Graph.v) INTERPRETS the tables that
+   translator/gen_propmap.py regenerates from fim/graph/abc_property_graph.py and the setters/getters of
+   fim/slivers/*.py (Gen/PropMap.v) on every run:
+     to_props / from_props   <kind>_sliver_to_graph_properties_dict / <kind>_sliver_from_graph_properties_dict
+     to_dict / from_dict     sliver_to_dict / build_deep_*_sliver_from_dict
+     sliver_to_json / sliver_from_json   JSONSliver (JSON values; the text level is not modelled)
+     set_property / get_property         <Element>.set_property / get_property / unset_property
+   k ranges over the five sliver classes; attrs is the sliver's __dict__ (data attributes);
+   field values are tokens (Model/Sliver2Kinds.v fval).
+
+   FULL STATEMENT (what the property asks):
+     (R)  forall k a, attrs_wf k a = true -> bind (to_props k a) (from_props k) = Ok a
+          and the same for trees through the dictionary, JSON and graph routes;
+     (S)  get (set p v) = v and get (unset p) = None for every settable property p.
+   (R) and (S) are FALSE of the faithful model in the ways named by the `_refuted` theorems below (each
+   witness is replayed on the implementation on every run, harness/c02.py refuted_witnesses); what
+   holds instead is stated exactly (normalize, forget_ids, stored, unset_reads) and the `_exact`/`_absent`
+   versions give the property as asked under a hypothesis that excludes just the defect's signature. *)
 From Coq Require Import List String NArith Bool.
-From FIM Require Import Base.Str Model.Sliver2Kinds Gen.PropMap Model.Sliver2Map Proofs.Sliver2Tables.
+From FIM Require Import Base.Str Model.Sliver2Kinds Gen.PropMap Model.Sliver2Map Model.Sliver2WF
+  Model.Sliver2Deep Model.Sliver2DeepWF Model.Sliver2Graph Proofs.Sliver2DeepRT Proofs.Sliver2Tables.
 Import ListNotations.
 
+(* the translator recognised every statement of the conversion functions (fail-closed flag) *)
 Theorem C02_translated : gen_ok = true.
 Proof. exact gen_ok_true. Qed.
 Print Assumptions C02_translated.
+
+(* TABLE SYMMETRY.  For every sliver class and every data attribute of the class: the attribute is
+   written by exactly one statement, read back by exactly one keyword whose setter assigns that
+   attribute, through the same graph property, with an encoder/decoder/setter triple that is inverse
+   (inv_ok); no graph property collides with a child key or NodeID; absent properties read as
+   documented.  A finite check over the regenerated tables - the domain is the table. *)
+Theorem C02_tables_symmetric :
+  forallb (fun k => tables_symmetric k && dict_tables_ok k && absent_ok k)
+          [KNode; KComponent; KService; KInterface; KLink] = true.
+Proof. exact all_tables_ok_true. Qed.
+Print Assumptions C02_tables_symmetric.
+
+(* FLAT ROUND TRIP, all well-formed slivers of all five classes (lifted from the table check by a
+   generic lemma): rebuilding a sliver from its graph properties returns the same value for every
+   attribute, except that an attribute that is None comes back as what an absent property reads as
+   (normalize: identity but for the gateway of a service, see C02_props_roundtrip_refuted). *)
+Theorem C02_props_roundtrip : forall k a,
+  attrs_wf k a = true -> bind (to_props k a) (from_props k) = Ok (normalize k a).
+Proof. exact props_roundtrip. Qed.
+Print Assumptions C02_props_roundtrip.
+
+Theorem C02_props_roundtrip_exact_partial : forall k a,
+  attrs_wf k a = true -> is_normal k a = true -> bind (to_props k a) (from_props k) = Ok a.
+Proof. exact props_roundtrip_exact. Qed.
+Print Assumptions C02_props_roundtrip_exact_partial.
+
+(* (R) is false: a freshly built named network service (gateway None) comes back with an empty
+   Gateway object *)
+Theorem C02_props_roundtrip_refuted :
+  exists k a, attrs_wf k a = true /\ bind (to_props k a) (from_props k) <> Ok a.
+Proof. exact props_roundtrip_refuted. Qed.
+Print Assumptions C02_props_roundtrip_refuted.
+
+(* the hypothesis attrs_wf excludes empty value objects (canonical text ''): they read back as absent *)
+Theorem C02_empty_object_reads_absent_refuted :
+  bind (to_props KNode w_empty_caps) (from_props KNode) = Ok (aset "capacities" None w_empty_caps).
+Proof. exact empty_object_refuted. Qed.
+Print Assumptions C02_empty_object_reads_absent_refuted.
+
+(* DEEP DICTIONARY ROUND TRIP, any nesting (induction on the sliver tree): same structure, same value
+   of every attribute; node ids are not part of the dictionary form (forget_ids). *)
+Theorem C02_dict_roundtrip : forall t,
+  tree_wf t = true -> bind (to_dict t) (from_dict (t_kind t)) = Ok (forget_ids t).
+Proof. exact dict_roundtrip. Qed.
+Print Assumptions C02_dict_roundtrip.
+
+(* JSON ROUND TRIP (JSONSliver), any nesting, over JSON values *)
+Theorem C02_json_roundtrip : forall t,
+  tree_wf t = true -> bind (sliver_to_json t) (sliver_from_json (t_kind t)) = Ok (forget_ids t).
+Proof. exact json_roundtrip. Qed.
+Print Assumptions C02_json_roundtrip.
+
+Theorem C02_json_values_roundtrip : forall d, jv_to_dd (dd_to_jv d) = Some d.
+Proof. exact json_value_roundtrip. Qed.
+Print Assumptions C02_json_values_roundtrip.
+
+(* GET AFTER SET, every element class, every settable property written by a statement of its own:
+   reading back returns what the setter stores (stored), which is the argument itself for every setter
+   but set_management_ip (C02_set_get_same). *)
+Theorem C02_set_get : forall k p v d x,
+  settable k p = Some x -> single_written k x = true -> value_ok k p v = true -> readable k d = true ->
+  exists d', set_property k p (Some v) d = Ok d' /\ get_property k p d' = Ok (stored k p v).
+Proof. exact set_get. Qed.
+Print Assumptions C02_set_get.
+
+Theorem C02_set_get_same_partial : forall k p v d x,
+  settable k p = Some x -> single_written k x = true -> stores_argument k p = true ->
+  value_ok k p v = true -> readable k d = true ->
+  exists d', set_property k p (Some v) d = Ok d' /\ get_property k p d' = Ok (Some v).
+Proof. exact set_get_same. Qed.
+Print Assumptions C02_set_get_same_partial.
+
+(* (S) is false for the two halves of the image pair: set_property('image_ref', v) is a silent no-op *)
+Theorem C02_set_get_image_ref_refuted :
+  readable KNode w_node_props = true /\
+  exists d', set_property KNode "image_ref" (Some (FStr (S"img"))) w_node_props = Ok d' /\
+             get_property KNode "image_ref" d' = Ok None.
+Proof. exact image_ref_alone_refuted. Qed.
+Print Assumptions C02_set_get_image_ref_refuted.
+
+(* ... and an image_ref with a comma makes every later read of the node raise *)
+Theorem C02_image_ref_with_comma_refuted :
+  exists d', set_properties KNode [("image_ref", Some (FStr (S"a,b"))); ("image_type", Some (FStr (S"qcow2")))]%string
+                            w_node_props = Ok d' /\
+             get_property KNode "site" d' = Err ExValue.
+Proof. exact image_comma_refuted. Qed.
+Print Assumptions C02_image_ref_with_comma_refuted.
+
+(* GET AFTER UNSET, every element class, every property SLIVER_PROPERTY_TO_GRAPH maps to a graph
+   property that may be removed: reads the absent value (unset_reads), which is None for every such
+   property but the gateway of a service. *)
+Theorem C02_unset_get : forall k p d x g,
+  settable k p = Some x -> alookup p sliver_property_to_graph = Some g ->
+  mem g no_unset_properties = false -> readable k d = true ->
+  exists d', set_property k p None d = Ok d' /\ get_property k p d' = Ok (unset_reads k x).
+Proof. exact unset_get. Qed.
+Print Assumptions C02_unset_get.
+
+Theorem C02_unset_get_absent_partial : forall k p d x g,
+  settable k p = Some x -> alookup p sliver_property_to_graph = Some g ->
+  mem g no_unset_properties = false -> readable k d = true ->
+  (kind_eqb k KService && String.eqb p "gateway") = false ->
+  exists d', set_property k p None d = Ok d' /\ get_property k p d' = Ok None.
+Proof. exact unset_get_absent. Qed.
+Print Assumptions C02_unset_get_absent_partial.
+
+Theorem C02_unset_gateway_refuted :
+  readable KService w_service_props = true /\
+  exists d', set_property KService "gateway" None w_service_props = Ok d' /\
+             get_property KService "gateway" d' = Ok (Some (FObj "Gateway" None)).
+Proof. exact unset_gateway_refuted. Qed.
+Print Assumptions C02_unset_gateway_refuted.
+
+(* which settable properties have no unset mapping (their unset is a silent no-op): exactly these -
+   a forgotten mapping (as `location` was before fix 85687de) changes this list *)
+Theorem C02_unmapped_setters :
+  map unmapped_setters [KNode; KComponent; KService; KInterface; KLink] =
+  [["image_type"; "stitch_node"]; ["stitch_node"]; ["stitch_node"]; ["stitch_node"]; ["stitch_node"]]%string.
+Proof. exact unmapped_exact. Qed.
+Print Assumptions C02_unmapped_setters.
+
+Theorem C02_unset_unmapped_is_noop : forall k p d,
+  alookup p sliver_property_to_graph = None -> set_property k p None d = Ok d.
+Proof. exact unset_unmapped_noop. Qed.
+Print Assumptions C02_unset_unmapped_is_noop.
+
+(* documented precondition: Name and Type (NO_UNSET_PROPERTIES) cannot be unset, the backend refuses *)
+Theorem C02_unset_refused : forall k p d g,
+  alookup p sliver_property_to_graph = Some g -> mem g no_unset_properties = true ->
+  set_property k p None d = Err ExQuery.
+Proof. exact unset_refused. Qed.
+Print Assumptions C02_unset_refused.
+
+(* GRAPH ROUTE (in-memory backend): executable model tied on every run; no unbounded theorem.
+   It loses the sub-interfaces of interfaces: *)
+Theorem C02_graph_route_drops_subinterfaces_refuted :
+  tree_wf w_tree' = true /\ graph_roundtrip w_tree' = Ok (drop_subifs w_tree') /\ drop_subifs w_tree' <> w_tree'.
+Proof. exact graph_route_refuted. Qed.
+Print Assumptions C02_graph_route_drops_subinterfaces_refuted.
+
+(* ---------- non-vacuity ---------- *)
+(* a 5-level tree satisfies tree_wf and round-trips through the dictionary *)
+Example C02_deep_nonvacuous :
+  tree_wf w_tree' = true /\ bind (to_dict w_tree') (from_dict KNode) = Ok (forget_ids w_tree')
+  /\ forget_ids w_tree' <> T KNode None [] None None None.
+Proof. exact deep_example. Qed.
+
+(* real values satisfy the hypotheses of the element theorems *)
+Example C02_element_nonvacuous :
+  settable KNode "site" = Some "site"%string /\ single_written KNode "site" = true /\
+  value_ok KNode "site" (FStr (S"UKY")) = true /\ readable KNode w_node_props = true /\
+  stores_argument KNode "site" = true /\
+  value_ok KNode "management_ip" (FStr (S"10.0.0.1")) = true /\
+  stored KNode "management_ip" (FStr (S"10.0.0.1")) = Some (FIp (S"10.0.0.1")) /\
+  alookup "site"%string sliver_property_to_graph = Some "Site"%string /\
+  mem "Site" no_unset_properties = false.
+Proof. vm_compute. repeat split; reflexivity. Qed.
+
+(* the pair set together is read back (by computation on an instance; no general theorem) *)
+Example C02_image_pair_set_together :
+  exists d', set_properties KNode [("image_ref", Some (FStr (S"img"))); ("image_type", Some (FStr (S"qcow2")))]%string
+                            w_node_props = Ok d' /\
+             get_property KNode "image_ref" d' = Ok (Some (FStr (S"img"))) /\
+             get_property KNode "image_type" d' = Ok (Some (FStr (S"qcow2"))).
+Proof. exact image_pair_example. Qed.
